@@ -927,7 +927,7 @@ func TestC15(t *testing.T) {
 			wg.Wait()
 		}
 	}
-	ev.Sample(map[string]interface{}{"example_request": c15Requests(vlib.Rand("sample", 0), []string{"vipnode_peer"}, vlib.NewIdentity("s", 0), vlib.NewIdentity("s", 1), func(string) int64 { return 1 }, 1)[:300]})
+	ev.Sample(map[string]interface{}{"example_request": truncStr(c15Requests(vlib.Rand("sample", 0), []string{"vipnode_peer"}, vlib.NewIdentity("s", 0), vlib.NewIdentity("s", 1), func(string) int64 { return 1 }, 1), 300)})
 	finish(t, ev)
 }
 
